@@ -459,9 +459,11 @@ fn oracle(s: &mut Session, p: &Prog, step_resps: &[String], built: Option<&[u8]>
             }
             // decoded size of this chunk, decoded on its own at its own index
             let plain = if encrypted { decrypt_chunk_with_keys(&ch.data, &ks, i).ok() } else { decompress_chunk(&ch.data, ch.mode).ok() };
-            let actual = match (&plain, p.plain_chunks.get(i)) {
-                (Some(pl), _) => Some(pl.len()),
-                (None, Some((pl, _))) if !p.expect_err => Some(pl.len()),
+            // the content the chunk describes: the harness's own account of the chunking where it
+            // has one, else the chunk decoded on its own at its own index
+            let actual = match (p.plain_chunks.get(i), &plain) {
+                (Some((pl, _)), _) if !p.expect_err => Some(pl.len()),
+                (_, Some(pl)) => Some(pl.len()),
                 _ => None,
             };
             if let Some(n) = actual
@@ -480,6 +482,38 @@ fn oracle(s: &mut Session, p: &Prog, step_resps: &[String], built: Option<&[u8]>
     if !p.expect_err && parsed.chunks.len() != p.plain_chunks.len() {
         s.oracle_fail("chunk-count", &format!("{} chunks, expected {}", parsed.chunks.len(), p.plain_chunks.len()), replay);
     }
+}
+
+/// Decompress-graph points outside the compressor's range: when a chunk was encrypted with a
+/// foreign block index, the wrongly decrypted payload may start with `Z`/`4` and the decoder then
+/// runs the real decompressor on garbage. The model's `Codec.decompress` is a parameter, so the
+/// harness supplies the real library's answer on exactly those inputs (`dZ:<input>:<output|!>`).
+fn garbage_decompress_points(bytes: &[u8], keys: &BTreeMap<u64, [u8; 16]>) -> Vec<String> {
+    let mut out = vec![];
+    let Ok(parsed) = <BlteFile as CascFormat>::parse(bytes) else { return out };
+    for (i, ch) in parsed.chunks.iter().enumerate() {
+        let d = &ch.data;
+        if ch.mode != CompressionMode::Encrypted || d.len() < 16 || d[0] != 8 || d[9] != 4 {
+            continue;
+        }
+        let name = u64::from_le_bytes(d[1..9].try_into().unwrap());
+        let Some(key) = keys.get(&name) else { continue };
+        let (iv, et, ct) = (&d[10..14], d[14], &d[15..]);
+        let inner = match et {
+            0x53 => cascette_crypto::salsa20::decrypt_salsa20(ct, key, iv, i).ok(),
+            0x41 => cascette_crypto::arc4::Arc4Cipher::new(key).ok().map(|mut c| c.decrypt(ct)),
+            _ => None,
+        };
+        let Some(inner) = inner else { continue };
+        let (mc, cm) = match inner.first() {
+            Some(b'Z') => ('Z', CompressionMode::ZLib),
+            Some(b'4') => ('4', CompressionMode::LZ4),
+            _ => continue,
+        };
+        let r = decompress_chunk(&inner[1..], cm);
+        out.push(format!("d{mc}:{}:{}", hex(&inner[1..]), r.map(|v| hex(&v)).unwrap_or_else(|_| "!".into())));
+    }
+    out
 }
 
 fn trunc(s: &str) -> String {
@@ -507,17 +541,28 @@ fn run_prog(s: &mut Session, p: &Prog) {
     let mut dec = String::new();
     if let Some(h) = b.strip_prefix("ok ") {
         let bytes = unhex(h).unwrap();
-        let tab = tab_str(p.tab.iter());
+        let mut tab = tab_str(p.tab.iter());
+        if p.foreign_index {
+            let extra = garbage_decompress_points(&bytes, &p.keys);
+            if !extra.is_empty() {
+                s.tally("garbage-inner-mode-byte");
+                tab = if tab == "-" { extra.join(",") } else { format!("{},{}", extra.join(","), tab) };
+            }
+        }
         let l = format!("dec {} {} {}", h, p.keys_str(), tab);
         dec = real.run(&l.split(' ').collect::<Vec<_>>()).unwrap();
         s.line(&l, &dec);
-        let l = format!("decplain {} {}", h, tab);
-        let r = real.run(&l.split(' ').collect::<Vec<_>>()).unwrap();
-        s.line(&l, &r);
-        let l = format!("rows {}", h);
-        let r = real.run(&l.split(' ').collect::<Vec<_>>()).unwrap();
-        s.line(&l, &r);
-        if !p.keys.is_empty() {
+        // the remaining views repeat the container on the line; for big containers only `dec`
+        let small = bytes.len() <= 3000;
+        if small {
+            let l = format!("decplain {} {}", h, tab);
+            let r = real.run(&l.split(' ').collect::<Vec<_>>()).unwrap();
+            s.line(&l, &r);
+            let l = format!("rows {}", h);
+            let r = real.run(&l.split(' ').collect::<Vec<_>>()).unwrap();
+            s.line(&l, &r);
+        }
+        if small && !p.keys.is_empty() {
             // a key store that lacks one key: K only (the property speaks of the matching store)
             let mut v: Vec<String> = p.keys.iter().map(|(n, k)| format!("{n}:{}", hex(k))).collect();
             v.remove(0);
@@ -570,7 +615,7 @@ fn replay(s: &mut Session, lines: &[String]) {
             let (sp, key) = spec_of(t[0], t[1], t[2], t[3])?;
             Some(Enc { et: sp.encryption_type, name: sp.key_name, iv: sp.iv, key })
         };
-        let mut note_enc = |p: &mut Prog, e: &Enc| {
+        let note_enc = |p: &mut Prog, e: &Enc| {
             if e.et == 0x53 || e.et == 0x41 {
                 p.keys.insert(e.name, e.key);
             }
@@ -672,7 +717,7 @@ fn main() {
     let args = Args::parse();
     quiet_panics();
     let mut s = Session::new(&args.out);
-    s.rule = "seeded builder programs of 1..8 calls over {with_compression N/Z/4/E/F, with_chunk_size_unchecked 0/1/2/3/5/16/64/1024/default, with_encryption / without_encryption, add_data, add_mixed_data(None|Some), add_encrypted_data(index = position | foreign), add_chunk(ChunkData::new)} with Salsa20 / ARC4 / unknown cipher types, payload lengths 0, 1, cs-1, cs, cs+1, 2cs, 2cs+1, 3cs+r, random, first byte forced to N/Z/4/E/F in a third of them, constant / periodic / random content; plus an exhaustive sweep of two-call programs over the payload classes; non-trivial = every call succeeded, build produced a container with >= 1 chunk and it was decoded; distinct = canonical text of the whole program".into();
+    s.rule = "seeded builder programs of 1..8 calls over {with_compression N/Z/4/E/F, with_chunk_size_unchecked 0/1/2/3/5/16/64/1024/default, with_encryption / without_encryption, add_data, add_mixed_data(None|Some), add_encrypted_data(index = position | foreign), add_chunk(ChunkData::new)} with Salsa20 / ARC4 / unknown cipher types, payload lengths 0, 1, cs-1, cs, cs+1, 2cs, 2cs+1, 3cs+r, random, first byte forced to N/Z/4/E/F in a third of them, constant / periodic / random content; plus an exhaustive sweep of one- and two-call programs over {add_data, add_mixed_data, add_encrypted_data, add_chunk}^2 x payload lengths {0,1,cs-1,cs,cs+1,2cs,2cs+1} x modes x {plain, Salsa20, ARC4}; non-trivial = every call succeeded, build produced a container with >= 1 chunk and it was decoded; distinct = canonical text of the whole program".into();
     let mut rng = Rng::new(args.seed);
 
     if let Some(p) = &args.replay {
@@ -699,9 +744,13 @@ fn main() {
     for &m in modes {
         for e in encs {
             for c1 in calls {
-                for c2 in calls {
+                for c2 in ["add", "mixed", "encdata", "chunk", "-"] {
                     for &l1 in &lens {
                         for &l2 in &lens {
+                            // "-" = one-call program (single chunk / single encrypted chunk headers)
+                            if c2 == "-" && l2 != 0 {
+                                continue;
+                            }
                             if !args.thorough() && (l1 + l2) % 3 == 1 && l1 != 0 && l2 != 0 {
                                 continue;
                             }
@@ -717,6 +766,9 @@ fn main() {
                                 p.enc = Some(en);
                             }
                             for (c, l) in [(c1, l1), (c2, l2)] {
+                                if c == "-" {
+                                    continue;
+                                }
                                 let mut d: Vec<u8> = (0..l).map(|i| (i as u8).wrapping_mul(37).wrapping_add(l as u8)).collect();
                                 if l > 0 {
                                     d[0] = *rng.pick(&firsts);
@@ -770,7 +822,7 @@ fn main() {
     let n_prog = if args.thorough() { 20000 } else { 1500 };
     for k in 0..n_prog {
         let mut p = Prog::new();
-        let max = if k % 50 == 0 { 3000 } else if k % 7 == 0 { 400 } else { 48 };
+        let max = if k % 100 == 0 { 3000 } else if k % 7 == 0 { 400 } else { 48 };
         // most programs fix a small chunk size and a mode first, so boundaries are reached
         if rng.chance(9, 10) {
             p.cs = *rng.pick(&[1usize, 2, 3, 5, 5, 16, 64, 64, 1024]);
